@@ -31,3 +31,144 @@ PROPS["C14"] = {
          "quick": {"shards": 16, "checks": 60000}, "thorough": {"shards": 16, "checks": 600000, "timeout": 3000}},
     ],
 }
+
+PROPS["C01"] = {
+    "level": "exploration",
+    "technique": "model-based stateful property testing (rapid): operation sequences against a reference model, whole-state comparison after every step",
+    "level_text": ("generated operation sequences (append batches, replicated message-set appends, truncations at selected offsets, close/reopen with a "
+                   "different segment size, HW moves, reader probes) on a real on-disk commit log, compared after EVERY step with an in-memory "
+                   "reference model: returned offsets, Newest/Oldest/HW, a full read-back with byte-equal key/value/headers/timestamp/epoch, "
+                   "committed and uncommitted readers from selected starts, segment files and their sizes, epoch-cache invariants"),
+    "level_note": "sequential histories only (concurrency is C03); trusts the file system; timestamps/epochs non-decreasing and reader starts >= 0 as every caller produces them; truncation never below the HW",
+    "rule": ("rapid draws max segment bytes from {1,64,150,300,1024,65536,default} and 1-40 (thorough 1-120) ops: append(1-8 msgs; key nil/empty/short/300B, "
+             "value nil/empty/5B-2KiB/70KiB, headers nil/empty/1-3 with empty/short/1100B values, equal or increasing timestamps, epoch bumps), appendset "
+             "(1-6 msgs encoded as a follower receives them), truncate(class: any/inside batch/segment base+-1/batch start/beyond end), reopen(optionally new "
+             "segment size), sethw, probe(start class, committed or not). Non-trivial = the case rolled at least one segment AND contains one of: truncate "
+             "strictly inside a batch, truncate at a segment base, reopen after a truncate, message-set append that rolled, probe starting at/inside a "
+             "non-first segment. distinct = SHA-1 of the case encoding."),
+    "assumptions": TRUST + ["process keeps running (crashes are C05)", "no compaction/retention in this flavour (C08/C09)"],
+    "units": [
+        {"name": "C01", "pkg": "server/commitlog", "test": "TestVerifC01",
+         "quick": {"shards": 16, "checks": 1500}, "thorough": {"shards": 16, "checks": 12000, "timeout": 3000}},
+    ],
+}
+
+PROPS["C09"] = {
+    "level": "exploration",
+    "technique": "model-based property testing (rapid): generated segment layouts x limit combinations placed at/around the layout's cumulative sums, closed-form expected cut",
+    "level_text": ("generated layouts (1-20 segments of 1-9 messages with varying byte sizes and timestamps) and every combination of the bytes/messages/age "
+                   "limits with values placed exactly at, one below and one above the layout's suffix sums / segment last-timestamps (plus tiny and huge), 1-6 "
+                   "cleans with further appends in between; the expected cut k* = max(k_age,k_msgs,k_bytes) capped at n-1 is computed on the model and the "
+                   "survivors must be exactly segments [k*,n), byte-identical, readable from every start offset"),
+    "level_note": "timestamps non-decreasing (leader-stamped); computeTTL is replaced by a fixed cut-off through the package variable meant for it; cleans concurrent with appends only in the thorough -race unit",
+    "rule": ("rapid draws max segment bytes from {1,64,150,300,1024}, 1-3 rounds of (0-18 appends of 1-3 messages, optional reopen, optional HW move, 1-2 Clean() calls "
+             "whose limits are selectors resolved against the current model layout). Non-trivial = a clean on >=3 segments with >=1 limit active whose expected "
+             "cut is neither 0 nor n-1. Labels report all 7 limit combinations and each placement class."),
+    "assumptions": TRUST,
+    "units": [
+        {"name": "C09", "pkg": "server/commitlog", "test": "TestVerifC09",
+         "quick": {"shards": 16, "checks": 1500}, "thorough": {"shards": 16, "checks": 15000, "timeout": 3000}},
+    ],
+}
+PROPS["C08"] = {
+    "level": "exploration",
+    "technique": "model-based property testing (rapid): key patterns x layouts x HW x workers, Must/May set oracle + reader consistency from every start offset",
+    "level_text": ("generated key patterns (nil, empty, 4 short keys, a 200-byte key, runs of one key), 2-30 segments, HW anywhere, 1/2/4/10 compaction workers, "
+                   "repeated cleans with HW moves and appends in between, optionally with retention limits; oracle: Must (keyless, >=HW, newest segment, latest "
+                   "committed per key) is a subset of the survivors, survivors are a subset of the log before, unchanged and ordered; then forward uncommitted, "
+                   "forward committed and reverse committed readers from every start offset return exactly the survivors in range"),
+    "level_note": "empty-but-non-nil keys are generated although only the commit-log API can store them; compaction concurrent with appends only in the thorough -race unit",
+    "rule": ("rapid draws max segment bytes from {1,64,150,300,1024}, 1-3 rounds of (appends of 1-4 keyed messages with run-length bias, HW moves, optional reopen, a "
+             "compacting Clean() with generated worker count, 0-2 repeat cleans). Non-trivial = a compaction over >=3 segments with the HW strictly inside the log "
+             "and some key occurring at or below the HW in two different segments."),
+    "assumptions": TRUST,
+    "units": [
+        {"name": "C08", "pkg": "server/commitlog", "test": "TestVerifC08",
+         "quick": {"shards": 16, "checks": 1000}, "thorough": {"shards": 16, "checks": 10000, "timeout": 3000}},
+    ],
+}
+
+PROPS["C10"] = {
+    "level": "exploration",
+    "technique": "property-based testing (rapid): log shape x subscription request products against a reference function over the surviving messages",
+    "level_text": "TODO",
+    "level_note": "TODO",
+    "rule": "TODO",
+    "assumptions": TRUST,
+    "claimed": False,
+    "units": [
+        {"name": "C10cl", "pkg": "server/commitlog", "test": "TestVerifC10cl",
+         "quick": {"shards": 16, "checks": 600}, "thorough": {"shards": 16, "checks": 6000, "timeout": 3000}},
+    ],
+}
+
+PROPS["C16"] = {
+    "level": "exploration",
+    "technique": "model-based property testing (rapid) at the commit-log level + concurrent racing publishers against an invariant over acks and the final log",
+    "level_text": "TODO",
+    "level_note": "TODO",
+    "rule": "TODO",
+    "assumptions": TRUST,
+    "claimed": False,
+    "units": [
+        {"name": "C16a", "pkg": "server/commitlog", "test": "TestVerifC16a",
+         "quick": {"shards": 8, "checks": 1500}, "thorough": {"shards": 16, "checks": 20000, "timeout": 3000}},
+    ],
+}
+PROPS["C03"] = {
+    "level": "exploration",
+    "technique": "model-based stateful property testing (rapid) with persistent committed readers + concurrent monitor under the race detector",
+    "level_text": "TODO",
+    "level_note": "TODO",
+    "rule": "TODO",
+    "assumptions": TRUST,
+    "claimed": False,
+    "units": [
+        {"name": "C03a", "pkg": "server/commitlog", "test": "TestVerifC03a",
+         "quick": {"shards": 16, "checks": 800}, "thorough": {"shards": 16, "checks": 8000, "timeout": 3000}},
+        {"name": "C03b", "pkg": "server/commitlog", "test": "TestVerifC03b", "common": {"race": True},
+         "quick": {"shards": 8, "checks": 60}, "thorough": {"shards": 16, "checks": 600, "timeout": 3000}},
+    ],
+}
+
+PROPS["C17"] = {
+    "level": "exploration",
+    "technique": "property-based testing (rapid): round-trip, no-plaintext and single-byte tamper / wrong-key metamorphic relations",
+    "level_text": "TODO",
+    "level_note": "TODO",
+    "rule": "TODO",
+    "assumptions": TRUST,
+    "claimed": False,
+    "units": [
+        {"name": "C17a", "pkg": "server/encryption", "test": "TestVerifC17a",
+         "quick": {"shards": 16, "checks": 3000}, "thorough": {"shards": 16, "checks": 100000, "timeout": 3000}},
+    ],
+}
+
+PROPS["C19"] = {
+    "level": "exploration",
+    "technique": "property-based testing (rapid): disable-route x value products against an effective-setting model, recorded HTTP transport, payload key whitelist + marker taint check",
+    "level_text": "TODO",
+    "level_note": "TODO",
+    "rule": "TODO",
+    "assumptions": TRUST,
+    "claimed": False,
+    "units": [
+        {"name": "C19a", "pkg": "server/telemetry", "test": "TestVerifC19a",
+         "quick": {"shards": 8, "checks": 100}, "thorough": {"shards": 16, "checks": 2000, "timeout": 3000}},
+    ],
+}
+
+PROPS["C12"] = {
+    "level": "exploration",
+    "technique": "model-based stateful property testing (rapid) + bounded-exhaustive enumeration of short histories; invariant over assignments + determinism between two replicas",
+    "level_text": "TODO",
+    "level_note": "TODO",
+    "rule": "TODO",
+    "assumptions": TRUST,
+    "claimed": False,
+    "units": [
+        {"name": "C12", "pkg": "server", "test": "TestVerifC12",
+         "quick": {"shards": 16, "checks": 2000}, "thorough": {"shards": 16, "checks": 20000, "timeout": 3000}},
+    ],
+}
